@@ -11,7 +11,7 @@ namespace {
 struct Case {
     std::vector<uint8_t> bytes; // entropy: tree shape, contents and spelling choices
     int                  width{1};
-    int                  alias{0}; // 1: strings also hold look-alike code points (jm::look_alike_cps); absent in older replay files
+    int                  alias{0}; // 2: as 1, and the small key alphabet is made of equal-hash pairs (jm::hash_twin_keys); 1: strings also hold look-alike code points (jm::look_alike_cps); absent in older replay files
     int                  ls_n{0}, ls_esc{0}, ls_place{0}; // replay of a long-string enumeration case (ls_n > 0)
     jm::Units            raw;                             // C07: a text (ASCII code points) that must be rejected, from the "deep" enumeration
 };
@@ -24,6 +24,7 @@ struct Doc {
 
 Doc make_doc(const Case &c) {
     jm::look_alike_cps() = (c.alias != 0);
+    jm::hash_twin_keys() = (c.alias == 2);
 #ifdef VERIF_C07
     jm::lone_low_surrogates() = (c.alias != 0);
 #endif
@@ -541,7 +542,7 @@ struct H {
 #endif
     static rc::Gen<Case> gen() {
         using namespace rc;
-        return gen::map(gen::tuple(gen::resize(250, gen::container<std::vector<uint8_t>>(gen::arbitrary<uint8_t>())), pbt::pick<int>({1, 1, 2, 4, 3}), pbt::pick<int>({0, 0, 1})),
+        return gen::map(gen::tuple(gen::resize(250, gen::container<std::vector<uint8_t>>(gen::arbitrary<uint8_t>())), pbt::pick<int>({1, 1, 2, 4, 3}), pbt::pick<int>({0, 1, 2})),
                         [](std::tuple<std::vector<uint8_t>, int, int> t) {
                             Case c;
                             c.bytes = std::get<0>(t);
@@ -556,7 +557,7 @@ struct H {
         static const int w[] = {1, 2, 4, 3};
         const uint8_t sel = f.sel();
         c.width = w[sel & 3];
-        c.alias = (sel >> 2) & 1;
+        c.alias = ((sel >> 2) & 1) + ((sel >> 2) & (sel >> 3) & 1);
         c.bytes = f.rest();
         return true;
     }
